@@ -82,6 +82,7 @@ _C16 = [
 
 ID = "C16"
 PROP = {
+    "max_jobs": 8,  # parallel CBMC jobs (memory profile of these harnesses)
     "claim": "for every value inside the bound and EVERY fault position k in 0..=encoded_len: `write` into a std::io::Write that "
              "accepts exactly k bytes (short write, then one error) returns Err carrying that writer's error - never Ok, never "
              "a panic - exactly k bytes reached the writer, they equal the first k bytes of the fault-free encoding (produced "
